@@ -76,6 +76,7 @@ def configs(tier):
                 out.append(dict(family='fpp-weighted', entry='fast_SIR', graph=g, I0=I0, R0=R0, weights='edge', full=True, tmax='inf', ties=False,
                                 tags=['fpp-weighted', g] + (['R0'] if R0 else [])))
     out.append(dict(family='truncexp', entry='_truncated_exponential_', tags=['truncexp']))
+    out.append(dict(family='truncexp', entry='_truncated_exponential_', T='inf', tags=['truncexp', 'T=inf']))      # a node that never recovers
     for n in range(0, 4 if tier == 'quick' else 6):
         for k in range(0, n + 1):
             out.append(dict(family='density', entry='sampler density identity', n=n, k=k, tags=['density']))
@@ -206,12 +207,29 @@ def run_truncexp(h, cfg):
     from vlib.symx import LE, LT, AND, Sym
     eng = symx.ENG
     r = simruns.setup(dict(entry='fast_SIR', graph='K2', I0=[0], R0=[], trunc_stub=False, tags=[]))
-    T = eng.real('T', lo=0, lo_strict=True)
+    T = INF if cfg.get('T') == 'inf' else eng.real('T', lo=0, lo_strict=True)
     rate = eng.real('rate', lo=0, lo_strict=True)
     n0 = len(eng.log)
-    res = h.call_must_succeed('no-exception', r.sim._truncated_exponential_, rate, T)
+    if cfg.get('T') == 'inf':
+        st, res = h.call(r.sim._truncated_exponential_, rate, T)
+        if st == 'exc':
+            # (0*Inf = nan cannot enter a symbolic term: same failure as a nan result in the concrete replay)
+            h.fail('truncexp-contract', {'T': 'inf', 'result': 'not a number', 'exception': repr(res)[:120]})
+            return None
+    else:
+        res = h.call_must_succeed('no-exception', r.sim._truncated_exponential_, rate, T)
     if res is None:
         return None
+    if cfg.get('T') == 'inf':
+        # nothing to truncate: the result is the exponential draw itself (in particular a number, not nan)
+        ex = [e for e in eng.log[n0:] if e[0] == 'expo']
+        ok = len(ex) == 1 and not (isinstance(res, float) and res != res)
+        if not ok:
+            h.fail('truncexp-contract', {'T': 'inf', 'result': repr(res)[:60], 'draws': len(ex)})
+            return None
+        h.require('truncexp-rate', symx.EQ(ex[0][1], rate), None)
+        h.require('truncexp-contract', symx.EQ(res, ex[0][2]), {'T': 'inf', 'r': symx.show(res), 't': symx.show(ex[0][2])})
+        return {'r': res}
     ex = [e for e in eng.log[n0:] if e[0] == 'expo']
     if len(ex) != 1:
         h.fail('truncexp-contract', {'draws': len(ex)})
